@@ -232,21 +232,30 @@ func TestVerifC09Dial(t *testing.T) {
 			return
 		}
 		st.Write(nonce)
-		time.Sleep(500 * time.Millisecond) // grace period for the losers to be closed
-		srv.mu.Lock()
-		var open, winners int
+		// grace period for the losers to be closed: at least 500 ms, and up to 4 s on a busy
+		// machine (the verdict is taken from the first moment after 500 ms at which exactly one
+		// connection is open and carries the nonce, or from the state after 4 s)
+		var open, winners, accepted int
 		var openAddrs []string
-		for _, a := range srv.conns {
-			if !a.closed {
-				open++
-				openAddrs = append(openAddrs, a.conn.RemoteAddr().String())
-				if a.nonce == hex.EncodeToString(nonce) {
-					winners++
+		for waited := time.Duration(0); ; waited += 100 * time.Millisecond {
+			time.Sleep(100 * time.Millisecond)
+			srv.mu.Lock()
+			open, winners, openAddrs = 0, 0, nil
+			for _, a := range srv.conns {
+				if !a.closed {
+					open++
+					openAddrs = append(openAddrs, a.conn.RemoteAddr().String())
+					if a.nonce == hex.EncodeToString(nonce) {
+						winners++
+					}
 				}
 			}
+			accepted = len(srv.conns)
+			srv.mu.Unlock()
+			if waited >= 400*time.Millisecond && ((open == 1 && winners == 1) || waited >= 3900*time.Millisecond) {
+				break
+			}
 		}
-		accepted := len(srv.conns)
-		srv.mu.Unlock()
 		conn.CloseWithError(0, "done")
 		if winners != 1 {
 			rec.Fail(rt, "winner-not-alive", fmt.Sprintf("the connection returned to the caller is not among the listener's open connections (%d matches) | %s", winners, desc))
@@ -256,7 +265,23 @@ func TestVerifC09Dial(t *testing.T) {
 			hmu.Lock()
 			l := late
 			hmu.Unlock()
-			rec.Fail(rt, "late-winner-left-open", fmt.Sprintf("%d connections are still open on the listener 500 ms after ProbeAndDial returned one (accepted %d, late completions forced %d, open from %v) | %s", open, accepted, l, openAddrs, desc))
+			rec.Fail(rt, "late-winner-left-open", fmt.Sprintf("%d connections are still open on the listener 4 s after ProbeAndDial returned one (accepted %d, late completions forced %d, open from %v) | %s", open, accepted, l, openAddrs, desc))
+			return
+		}
+		// one attempt per address: a candidate listed twice must not produce two connections
+		// (the accepting side could commit to the one that is about to be abandoned)
+		distinct := map[string]bool{}
+		relayListed := false
+		for _, c := range cands {
+			if strings.HasPrefix(c, "turn:") {
+				relayListed = true
+			}
+			if reach[c] {
+				distinct[c] = true
+			}
+		}
+		if !relayListed && accepted > len(distinct) {
+			rec.Fail(rt, "duplicate-candidate-dialed-twice", fmt.Sprintf("the listener accepted %d connections for %d distinct reachable candidate addresses | %s", accepted, len(distinct), desc))
 			return
 		}
 		if nreach >= 2 && accepted >= 2 {
